@@ -40,6 +40,8 @@ func (c *Ctx) regionInit(name string, gen int) string {
 	if !ok {
 		if name == "$alloc" {
 			sort_ = "Int"
+		} else if name == "$wfault" {
+			sort_ = "Bool"
 		} else {
 			panic(fmt.Sprintf("internal: unknown region %s", name))
 		}
@@ -60,6 +62,9 @@ func (c *Ctx) regionSort(name string) string {
 	if name == "$alloc" {
 		return "Int"
 	}
+	if name == "$wfault" {
+		return "Bool"
+	}
 	return c.regions[name]
 }
 
@@ -78,6 +83,8 @@ var genCounter int
 // havocAll forgets every heap region (used for calls with unknown effects).
 func (c *Ctx) havocAll(s *State) {
 	old := c.alloc(s)
+	ghost := c.region(s, "$wfault")
+	defer func() { s.cells["$wfault"] = Val{S: ghost} }()
 	for k := range s.cells {
 		if isRegionKey(k) {
 			delete(s.cells, k)
@@ -248,6 +255,9 @@ func (c *Ctx) loadBase(s *State, p *Ptr) string {
 	switch p.Kind {
 	case pCell:
 		v, ok := s.cells[p.Cell]
+		if (!ok || v.S == "") && isRegionKey(p.Cell) {
+			return c.regionInit(p.Cell, s.gen) // package-level variable not written so far
+		}
 		if !ok || v.S == "" {
 			panic(unsupported("read of unset or non-SMT cell " + p.Cell))
 		}
